@@ -344,3 +344,24 @@ Theorem C04_dataset_example :
     = z_spec_run d_getitem z_ex2_world (fun _ => None) z_ex2_hist.
 Proof. exact z_example_nested. Qed.
 Print Assumptions C04_dataset_example.
+
+(* LATER MUTATION OF THE CALLER'S INDEX ARRAYS HAS NO EFFECT: objects constructed from index objects the caller still
+   holds; the caller overwrites them (ZMutate) anywhere in the history.  With the constructor as translated
+   (c04_init_keep_deepcopied: self.keep = copy.deepcopy(keep)) the whole history - with faults, retries, nesting -
+   is the atomic spec over the values the index objects had at construction; with a constructor that keeps the
+   caller's object it is not (Coq witness). *)
+Theorem C04_keep_snapshot : forall (V K : Type) (getitem : V -> K -> option V) w, z_wf V K (z_snapshot w) ->
+  forall evs st,
+  z_run_events getitem c04_init_keep_deepcopied z_code w st (z_init (z_snapshot w)) evs
+    = z_spec_run getitem (z_snapshot w) (fun _ => None) (z_requests_of evs).
+Proof. exact z_keep_snapshot. Qed.
+Print Assumptions C04_keep_snapshot.
+Theorem C04_keep_snapshot_needs_copy :
+  let w := [(ZPBase 5, (1, Some 0%nat), @nil (Z -> Z))] in
+  let evs := [ZMutate 0%nat 100; ZRequest [0%nat] (fun _ _ => false)] in
+  z_run_events (fun a k => Some (a + k)) false z_code w (fun _ => 1) (z_init (z_snapshot w)) evs
+    = [[(ZRet 105, [])]] /\
+  z_spec_run (fun a k => Some (a + k)) (z_snapshot w) (fun _ => None) (z_requests_of evs)
+    = [[(ZRet 6, [])]].
+Proof. exact z_keep_alias_refuted. Qed.
+Print Assumptions C04_keep_snapshot_needs_copy.
